@@ -117,10 +117,10 @@ func JSONGetNaturalLanguageField(val *fastjson.Value, prop string) NaturalLangua
 		ob.Visit(func(key []byte, v *fastjson.Value) {
 			l := LangRefValue{}
 			l.Ref = LangRef(key)
-			if err := l.Value.UnmarshalJSON(v.GetStringBytes()); err == nil {
-				if l.Ref != NilLangRef || len(l.Value) > 0 {
-					n = append(n, l)
-				}
+			// GetStringBytes returns the decoded text, it is not a JSON document any more
+			l.Value = Content(v.GetStringBytes())
+			if l.Ref != NilLangRef || len(l.Value) > 0 {
+				n = append(n, l)
 			}
 		})
 	case fastjson.TypeString:
